@@ -834,7 +834,7 @@ def set_partition_orderings(n):
     return sorted(out)
 
 
-def comparison_only(dag, names):
+def comparison_only(dag, names, consts_out=None):
     """The slot words (and the order statistics / selections made of them) occur only under comparisons, as
     arguments of order statistics, as selected values and inside returned aggregates — never inside arithmetic
     or bit operations (which would look *into* a word)."""
@@ -862,6 +862,15 @@ def comparison_only(dag, names):
     for wid, x in words.items():
         for p_ in parents.get(wid, []):
             if p_[0] == "bin" and p_[1] in ("Lt", "Le", "Gt", "Ge", "Eq", "Ne"):
+                other = p_[3] if p_[2] is x else p_[2]
+                if id(other) not in words:
+                    # compared with something that is not a slot word: a constant cuts the words into cells that a fold
+                    # over order patterns does not visit (callers that can enumerate the cells ask for the constants)
+                    if other[0] == "c" and consts_out is not None:
+                        consts_out.add(other[1])
+                        continue
+                    what = x[1] if x[0] == "atom" else "an order statistic of the slots"
+                    return False, "%s is compared with %s" % (what, ("the constant %#x" % other[1]) if other[0] == "c" and isinstance(other[1], int) else "a computed value")
                 continue
             if p_[0] == "call" and p_[1] == "kth":
                 continue
